@@ -4,3 +4,28 @@ package main
 
 func (ex *Exec) trackAccess(st *State, fr *Frame, p Ptr, write bool) {}
 func (ex *Exec) mergeAccess(st *State)                               {}
+
+func mergeAccessSummary(dst, src *AccessSummary) {
+	dst.Reads += src.Reads
+	dst.Writes += src.Writes
+	dst.Unlocked += src.Unlocked
+	dst.UnlockedW += src.UnlockedW
+	for k := range src.Threads {
+		if dst.Threads == nil {
+			dst.Threads = map[string]bool{}
+		}
+		dst.Threads[k] = true
+	}
+	for k := range src.Sites {
+		if dst.Sites == nil {
+			dst.Sites = map[string]bool{}
+		}
+		dst.Sites[k] = true
+	}
+	for k := range src.UnlockedAt {
+		if dst.UnlockedAt == nil {
+			dst.UnlockedAt = map[string]bool{}
+		}
+		dst.UnlockedAt[k] = true
+	}
+}
